@@ -22,6 +22,21 @@ type propConfig struct {
 }
 
 var propConfigs = map[string]*propConfig{
+	"C03": {pkgs: []string{"./pkg/procbuilder"}, notes: []string{
+		"textual normalisation of numeric literals is assumed through Process_number's contract (numval): the literal's value, not its spelling, round-trips",
+		"opcodes whose assembler shape the contract generator does not recognise (listed at the end of pkg/procbuilder/verif_contracts_ops.go) have no functional round-trip contract; the dynamic opcode families are not covered",
+		"disassembly of immediates wider than 62 bits is excluded by precondition (get_id is specified for fields up to 62 bits)",
+		"round trips are stated per opcode through proof harnesses (assemble, check the word width as the dispatcher does, disassemble); Machine.Disassembler's loop over a whole program is not under contract",
+	}},
+	"C16": {pkgs: []string{"./pkg/procbuilder", "./pkg/bondmachine", "./pkg/basm", "./pkg/bondgo", "./pkg/bmstack", "./pkg/bmserialize", "./pkg/bondirect"}, notes: []string{
+		"requirement inference of the front ends (basm, bondgo, neuralbond: how many registers/ports/ROM cells a source needs) is string-, map- and goroutine-server code outside the verifiable subset",
+		"opcode list sortedness/duplicate-freedom and Rsize agreement between machine and domains are not decided",
+		"bond-graph well-formedness of constructed machines is property C10's check",
+	}},
+	"C08": {pkgs: []string{"./pkg/bmnumbers"}, extra: func(c *checkRun) { c.regLanObligations("bmnumbers") }, notes: []string{
+		"float16/float32, fixed point, FloPoCo and linear-quantiser import/export go through strconv.ParseFloat and float scaling: floating point is outside this family; only the integer notations (unsigned, signed, bin, hex) are under functional contract",
+		"the regular languages are those of Go's regexp/syntax parse of the pattern strings found in the importMatchers methods; runes above U+2FFFF are clipped (SMT-LIB string alphabet)",
+	}},
 	"C10": {pkgs: []string{"./pkg/bondmachine"}, notes: []string{
 		"Attach_benchmark_core / AttachBenchmarkCoreV2 are compositions of the verified edits with assembler calls; their bodies are not under contract here",
 		"negative indices (Del_input(-1), Del_bond(-1)) panic before any mutation; 0 <= id is a precondition",
@@ -48,6 +63,8 @@ type checkRun struct {
 	missing   []string
 	warnings  []string
 	bounded   []string
+	excluded  []string
+	matchers  []matcherInfo
 	start     time.Time
 }
 
@@ -104,7 +121,9 @@ func cmdCheck(args []string) {
 		}
 	}
 	sort.Strings(keys)
+	var tasks []verifyTask
 	for _, k := range keys {
+		k := k
 		fc := eng.contracts[k]
 		if fc.Trusted {
 			eng.noteAssumption("trusted (unverified) contract: " + k)
@@ -115,7 +134,35 @@ func cmdCheck(args []string) {
 			c.outside[k] = "function not found in the loaded packages (renamed or deleted?)"
 			continue
 		}
-		vc := eng.verifyFunction(fn, fc)
+		tasks = append(tasks, verifyTask{k, func() *VC { return eng.verifyFunction(fn, fc) }})
+	}
+	// interface-level contracts: every implementing type's method
+	var ikeys []string
+	for k, fc := range eng.contracts {
+		if !strings.HasPrefix(k, "iface:") {
+			continue
+		}
+		for _, p := range fc.Props {
+			if p == *prop {
+				ikeys = append(ikeys, k)
+			}
+		}
+	}
+	sort.Strings(ikeys)
+	for _, ik := range ikeys {
+		ifc := eng.contracts[ik]
+		for _, fn := range eng.ifaceTargets(ik) {
+			fn := fn
+			fk := funcKey(fn) + "@iface"
+			if why, excluded := eng.excluded[funcKey(fn)]; excluded {
+				c.excluded = append(c.excluded, funcKey(fn)+": "+why)
+				continue
+			}
+			tasks = append(tasks, verifyTask{fk, func() *VC { return eng.verifyAgainstIface(fn, ifc, eng.contracts[funcKey(fn)]) }})
+		}
+	}
+	for i, vc := range runTasks(tasks, 8) {
+		k := tasks[i].key
 		if vc.outside != "" {
 			c.outside[k] = vc.outside
 			continue
@@ -152,6 +199,9 @@ func cmdCheck(args []string) {
 	invPath := filepath.Join(*verifDir, "inventory", *prop+".txt")
 	have := map[string]bool{}
 	for _, o := range c.obls {
+		if strings.Contains(o.Name, "#lemma[matchers_disjoint:") {
+			continue // named after the pattern texts, which legitimately change; guarded by the pattern count instead
+		}
 		have[baseName(o.Name)] = true
 	}
 	if *updateInv {
@@ -450,3 +500,28 @@ func (c *checkRun) tryReplay(obls []*Obligation) *replayResult {
 }
 
 var replayers = map[string]func(c *checkRun, obls []*Obligation) *replayResult{}
+
+// ---------------------------------------------------------------------------
+// Parallel generation (each function has its own VC; the engine's shared tables are locked).
+
+type verifyTask struct {
+	key string
+	run func() *VC
+}
+
+func runTasks(tasks []verifyTask, par int) []*VC {
+	out := make([]*VC, len(tasks))
+	sem := make(chan struct{}, par)
+	done := make(chan struct{}, len(tasks))
+	for i := range tasks {
+		sem <- struct{}{}
+		go func(i int) {
+			defer func() { <-sem; done <- struct{}{} }()
+			out[i] = tasks[i].run()
+		}(i)
+	}
+	for range tasks {
+		<-done
+	}
+	return out
+}
